@@ -401,7 +401,8 @@ class Ctx:
             try:
                 r = fn(*args)
             except Exception as e:
-                if kind in ND_PRESENTATIONS and (label, kind) not in REFUSED_BY_DEPENDENCY:
+                if (kind in ND_PRESENTATIONS or kind == "f32") and \
+                        (label, kind) not in REFUSED_BY_DEPENDENCY:
                     self.check("presentation.accepted", False,
                                f"{label}|raises-on-{kind}-input", case,
                                {"exc": repr(e)[:300], "presentation": kind,
